@@ -3252,6 +3252,16 @@ class UTPM(Ring, RawAlgorithmsMixIn):
             F[:, j] += s[j]**2
             F[j, j] = numpy.inf
 
+        # coinciding singular values (as repeated eigenvalues in the pullback
+        # of eigh): the singular vectors are not differentiable there, the
+        # pair contributes nothing (1/inf = 0) instead of inf * 0 = nan
+        s0sq = s.data[0]**2
+        tol = 1e-8 * numpy.maximum(1., s0sq.max(axis=-1))
+        for p in range(P):
+            mask = numpy.abs(F.data[0,p]) <= tol[p]
+            F.data[0,p][mask] = numpy.inf
+            F.data[1:,p][:,mask] = 0.
+
         F = 1./F
 
 
@@ -3268,7 +3278,13 @@ class UTPM(Ring, RawAlgorithmsMixIn):
         P1bar, P2bar = Pbar[:, :M], Pbar[:, M:]
 
         P1bar[...] = s.reshape((M, 1)) * (G + G.T) + s.reshape((1, M)) * (B + B.T)
-        P2bar[...] = D2bar/s.reshape((M, 1))
+        # (a vanishing singular value: no contribution, not 0/0)
+        sz = s.clone()
+        for p in range(P):
+            mask = s0sq[p] <= tol[p]**2
+            sz.data[0,p][mask] = numpy.inf
+            sz.data[1:,p][:,mask] = 0.
+        P2bar[...] = D2bar/sz.reshape((M, 1))
 
         Abar += UTPM.dot(U, UTPM.dot(Pbar, V.T))
 
